@@ -69,7 +69,9 @@ macro_rules! impl_timestamp {
           Err(e) => {
             let dur = e.duration();
             let complement_nanos = dur.subsec_nanos();
-            let ceil_secs = -(dur.as_secs() as i64);
+            // as_secs() can be 2^63 (the earliest SystemTime); its negation
+            // is i64::MIN, which wrapping_neg yields without overflowing
+            let ceil_secs = (dur.as_secs() as i64).wrapping_neg();
             if complement_nanos == 0 {
               (ceil_secs, 0)
             } else {
